@@ -1716,6 +1716,13 @@ class Optimizer:
             <= self.time_consts["max_consumed_culled_kcals_each_month"][month]
         )
 
+        # the meat eaten so far (gross of retail waste) is what has left the stock:
+        # it can never exceed the meat slaughtered so far
+        conditions["Meat_Eaten_Cumulative_Maximum"] = (
+            variables["meat_start"][0] - variables["meat_end"][month]
+            <= self.time_consts["max_consumed_culled_kcals_each_month"][month]
+        )
+
         return conditions
 
     def add_meat_to_model_no_storage(self, month, variables):
